@@ -26,7 +26,10 @@ var fmtPieces = []string{"%", "%", "%%", "%s", "%d", "%j", "%x", "%S", "%д", "%
 
 // JS source of argument values
 var argSrc = []string{`"str"`, `""`, `"%s"`, `"a b"`, `"é🙂"`, `42`, `-0`, `0`, `NaN`, `1.5`, `1e21`, `-1e-7`, `Infinity`, `true`, `false`, `null`, `undefined`,
-	`[1,2,3]`, `[]`, `["a",[1]]`, `({})`, `({a:1,b:"x"})`, `({a:[1,{b:null}]})`, `"100%"`, `" "`, `123456789012`}
+	`[1,2,3]`, `[]`, `["a",[1]]`, `({})`, `({a:1,b:"x"})`, `({a:[1,{b:null}]})`, `"100%"`, `" "`, `123456789012`,
+	// numbers whose JavaScript rendering is not their exact integer value, around every integer width, and strings that convert to them
+	`9007199254740992`, `9007199254740993`, `2**53+2`, `2**60`, `-(2**60)`, `2**62+2**9`, `2**63`, `-(2**63)`, `2**64`, `1e300`, `-1e21`, `4294967296`, `2147483648`,
+	`"1152921504606846976"`, `"0x10"`, `"1e3"`, `" 12 "`, `"12px"`, `5e-324`, `0.1+0.2`, `123456789.12345678`, `-2147483649`, `1e-7`, `[7]`, `[1,2]`, `new Date(0)`, `"9223372036854775808"`}
 
 func genFmt(r *lib.Rand) string {
 	n := r.Intn(7)
